@@ -134,6 +134,8 @@ def scenarios(chk):
     out.append(scn('reset', 5, 1, movethread=1, relog=1, loop=1))
     # two stops at the same time (outside the model: only the direct oracles apply)
     out.append(scn('reset', 5, 5, loop=0, concurrent=1))
+    out.append(scn('reset', rng.choice([1, 2, 8]), rng.choice([1, 3]), loop=1, concurrent=1, stagger=rng.randint(0, 1)))
+    out.append(scn('cycles', rng.choice([2, 5]), rng.choice([1, 5]), cycles=3, concurrent=1, loop=rng.randint(0, 1)))
     # stops when no thread exists: a second reset in a row, and a logger that never went asynchronous
     for b in (0, 3):
         out.append(scn('cycles', b, 1, cycles=2, double=1, loop=rng.randint(0, 1)))
